@@ -215,14 +215,15 @@ class CondGr(Unit):
 
     def cases(self):
         cs = [f"d={d}/{k}" for d in (2, 3) for k in GR_KINDS]
-        cs += ["d=2/vector/m=3", "d=3/badtype"]
+        # a real scalar stored in an INTEGER dtype (coordination numbers, counts): still "a real scalar A", not a selection
+        cs += ["d=2/vector/m=3", "d=3/badtype", "d=2/float/int-dtype", "d=3/float/int-dtype"]
         return cs
 
     def _parse(self, case):
         parts = case.split("/")
         d = int(parts[0][2:])
         kind = parts[1]
-        m = int(parts[2][2:]) if len(parts) > 2 else d
+        m = int(parts[2][2:]) if len(parts) > 2 and parts[2].startswith("m=") else d
         return d, kind, m
 
     def setup(self, ctx, case):
@@ -260,6 +261,9 @@ class CondGr(Unit):
                 sp = int(kind[-1])
                 inp["a"] = sp
             cond, el = _cond_array(ctx, kind, N, m, tr=tr, species=sp)
+            if case.endswith("/int-dtype"):
+                ai = ctx.array("Aint", (N,), "int")
+                cond, el = ai, (lambda i, ai=ai: sv.to_real(ai.get((i,))))
             ct = GR_KINDS[kind][0]
         inp["el"] = el
         inp["cond"] = cond
@@ -273,7 +277,11 @@ class CondGr(Unit):
         if GR_KINDS.get(kind, (None, False))[1] and kind != "ones":
             # the normalised variant is defined when A is not constant: <A^2> != <A>^2
             sumA, sumA2 = Sum(0, N, lambda i: el(i)), Sum(0, N, lambda i: sv.mul(el(i), el(i)))
-            mean, msq = sv.div(sumA, N), sv.div(sumA2, N)
+            if case.endswith("/int-dtype"):
+                # the same two numbers written as integer sums (sum_i A_i and sum_i A_i^2 of integers are integers)
+                sumA = Sum(0, N, lambda i: cond.get((i,)))
+                sumA2 = Sum(0, N, lambda i: sv.mul(cond.get((i,)), cond.get((i,))))
+            mean, msq = sv.div(sv.to_real(sumA), N), sv.div(sv.to_real(sumA2), N)
             inp["mean"], inp["msq"], inp["sumA"], inp["sumA2"] = mean, msq, sumA, sumA2
             ctx.assume(sv.cmp("!=", msq, sv.mul(mean, mean)))
         return [snap, cond], {"conditiontype": ct, "ppp": ppp, "rdelta": rd}, inp
@@ -442,7 +450,7 @@ class CondGr(Unit):
 
     def replay(self, case, clause, model, seed):
         d, kind, m = self._parse(case)
-        return _replay_cgr(d, kind, m, clause, model, seed)
+        return _replay_cgr(d, kind, m, clause, model, seed, int_dtype=case.endswith("/int-dtype"))
 
 
 def _brute_gr(pos, H, ppp, rdelta, B, W):
@@ -469,7 +477,7 @@ def _brute_gr(pos, H, ppp, rdelta, B, W):
     return hist, near
 
 
-def _replay_cgr(d, kind, m, clause, model, seed):
+def _replay_cgr(d, kind, m, clause, model, seed, int_dtype=False):
     """real conditional_gr on seeded configurations (orthogonal and triclinic cells, mixed periodicity) against the brute-force
     weighted ordered-pair histogram of the statement"""
     import importlib
@@ -523,6 +531,10 @@ def _replay_cgr(d, kind, m, clause, model, seed):
             cond = np.ones(N, dtype=bool)
         elif kind == "ones":
             cond = np.ones(N)
+        elif kind == "float" and int_dtype:
+            cond = rng.integers(-3, 16, size=N).astype(np.int64 if trial % 2 else np.int32)      # e.g. coordination numbers: a real scalar in an integer dtype
+            if np.all(cond == cond[0]):
+                cond[0] += 1
         elif kind == "float":
             cond = rng.normal(size=N)
         elif kind == "complex":
